@@ -11,11 +11,11 @@ NOTE = ("Trusted base: rustc nightly front end + MIR builder, the flacfacts expo
 
 # id -> (technique, text, design_ref)   (claimed properties)
 CLAIMED = {
-    "C12": ("ERRDISC: type-directed error-discipline analysis of every sink call site in MIR + PREFIX/short-circuit (first consumer of every sink-error Result is `?`/return) + RESET on the scratch sinks and the C08 write effect (what a frame forwards from a scratch sink counts from the last clear in the same body)",
+    "C12": ("ERRDISC: type-directed error-discipline analysis of every sink call site in MIR + PREFIX/short-circuit (first consumer of every sink-error Result is `?`/return) + ERRDISC/overwritten (no sink-error Result is reassigned or dropped before it is looked at, path-sensitive) + RESET on the scratch sinks and the C08 write effect (what a frame forwards from a scratch sink counts from the last clear in the same body)",
             "Every call site producing Result<_, S::Error|OutputError<S>> for a caller-supplied sink S is shown to "
             "propagate the error to the return place; none is unwrapped, swallowed or dead. Exhaustive over call "
             "sites, which is what 'for every k-th sink operation' quantifies over.", "4/C12"),
-    "C06": ("MPT/PAIR path rules over MIR CFGs with role-based anchors and wrapper summaries + ERRDISC in par + WORKERS/non-zero + worker-count dataflow (the non-zero count sizes pool, spawns and stop tokens unmodified)",
+    "C06": ("MPT/PAIR path rules over MIR CFGs with role-based anchors and wrapper summaries + ERRDISC in par + WORKERS/non-zero + worker-count dataflow (the non-zero count sizes pool, spawns and stop tokens unmodified) + QUEUE/consumers (one receiving function per protocol channel)",
             "Every return path of the par entry point (incl. every `?` edge) after the worker spawn passes the stop "
             "tokens, the worker joins and the hashing-thread stop+join; the worker returns every popped buffer; no "
             "SourceError/EncodeError is unwrapped or handed to a diverging closure. These are the per-path "
@@ -40,7 +40,7 @@ CLAIMED = {
             "that is discharged structurally (dominating `?`-propagated range check) or reported. Overflow/shift/"
             "The serialise->parse identity is not decided; 'exactly the number of bits it reports' is decided by the C08 effect rules (EFFECT write=count_bits, residual nest, UTF-8 length, extra bits), which this check runs as well.", "4/C18"),
     "C17": ("CASTCHECK + PARAMCHECK + dominance ORDER of verification before use + ERRDISC on VerifyError in the "
-            "encoder entry points",
+            "encoder entry points + SCAN/samples (every Ok path of the sample verification passes the per-channel scan) + ENTRY/non-empty-block",
             "Every narrowing cast of a public API argument, every length/byte-width argument of a fill, the "
             "verification-before-use order in the frame and stream entry points and every Result<_, VerifyError> in "
             "the encoder modules is an obligation decided on the MIR (dominating `?`-propagated checks). Hangs and "
@@ -52,7 +52,7 @@ CLAIMED = {
             "under a `<` of real bit-count sums. A necessary condition for 'never larger than verbatim'; the "
             "saturating cost tables are not decided.", "4/C09"),
     "C04": ("MPT/dominance on the role-found stream encoders + WHO-CALLS/WHO-WRITES on the STREAMINFO bound fields "
-            "+ backward slices of the written values + RANGE/block-size-argument + the C08 EFFECT rules (frame-size bounds are count_bits/8 in one mode and serialised bytes in the other)",
+            "+ backward slices of the written values + RANGE/block-size-argument + ACCUM/bounds (the four bounds are running min/max from the identities, frame value = count_bits/8 resp. block size) + the C08 EFFECT rules (frame-size bounds are count_bits/8 in one mode and serialised bytes in the other)",
             "Bounds are initialised before the first frame in both encoders, every frame enters through the "
             "bound-updating entry, frame-size bounds come from count_bits/8, and the final short frame cannot lower "
             "the minimum block size (disjunctive rule accepting either repair style). Numeric values are not "
@@ -64,7 +64,7 @@ CLAIMED = {
             "keys are injective in the lookup parameters, and no storage is re-entered while borrowed. Complete "
             "overwrite of length-set buffers before reads is not decided.", "4/C10"),
     "C11": ("SHIFTGUARD (dominating zero-width guard for `BITS - n` shifts, call-site guards for private helpers) + "
-            "CALLSET + SIBLING + FILLSTATE (storage growth dominated by a read of the word-level fill) + GROWTH/ceil (resize amount = ceil(bits/word) on a full period of the extracted summary) + LENGTH (effect summary of self.bitlength per sink operation = initial + ideal bit count, as linear forms over case leaves) + PADFORMULA + WIDTH/const + compile-fail witnesses for the sealed operand traits",
+            "CALLSET + SIBLING + FILLSTATE (storage growth dominated by a read of the word-level fill) + GROWTH/ceil (resize amount = ceil(bits/word) on a full period of the extracted summary) + LENGTH (effect summary of self.bitlength per sink operation = initial + ideal bit count, as linear forms over case leaves) + PADFORMULA + WIDTH/const + WORDCOUNT (storage length = ceil(bit length / word) preserved by every operation, summaries evaluated over offsets x counts x operand types) + TWOC/default (provided write_twoc hands the n-bit two's-complement code to a required method for n in 1..=64) + compile-fail witnesses for the sealed operand traits",
             "Narrow: zero-width operands are guarded in every sink implementation, default methods are built only "
             "from required ones, both write_bytes_aligned overrides align first, foreign operand types cannot be "
             "written, and every operation of both in-memory sinks advances the recorded bit length by exactly the "
@@ -84,7 +84,7 @@ CLAIMED = {
             "bodies (shift (4-BPS)*8, little-endian constructor). Converted values are not decided.", "4/C14"),
     "C15": ("LAYOUT reader<->writer: field-width token sequences of every nom parser (EFFECT engine in reader mode) "
             "vs the event sequence of the matching BitRepr::write + TABLE reader<->writer on all code tables + AGREE "
-            "dataflow (which read feeds which constructor argument) + WIDTH type rule on the decoder accumulator + AGREE/predictor-order on the encoder's construction sites (shared with C02)",
+            "dataflow (which read feeds which constructor argument) + WIDTH type rule on the decoder accumulator + AGREE/predictor-order on the encoder's construction sites (shared with C02) + ACCEPT/frame (the frame reader's cross-checks evaluated for the sample-size answers the writer emits) + accumulator-width at every instantiation of a generic decode helper",
             "Reader and writer agree on every field boundary, order and code for STREAMINFO, metadata header, frame "
             "header, all 16/16/8/16 code tables incl. extra bytes, subframe header and type codes with order "
             "formulas, raw samples, LPC parameters, residual (header, per-partition parameter, per-sample shape "
@@ -111,7 +111,7 @@ CLAIMED = {
             "Values (CRCs, Rice parameters, residual magnitudes) are not decided.", "4/C02"),
     "C03": ("MPT on the stream encoders + dataflow identity of the stored digest / count / format values (EFFECT-engine "
             "call log) + ORDER stop->join->read on the hashing thread + hashing-loop shape + FORWARD/SIBLING on the "
-            "Fill impls + STREAMINFO LAYOUT + PARAMCHECK on the digest contexts (a delivery of another byte width is refused before it is hashed)",
+            "Fill impls + STREAMINFO LAYOUT + PARAMCHECK on the digest contexts (a delivery of another byte width is refused before it is hashed) + single-consumer (only the hashing thread feeds the shared digest context)",
             "In both encoders every Ok return stores md5_digest() and len_hint.unwrap_or_else(total_samples()) of the "
             "very context every block was delivered to (the read destination is the (frame buffer, context) pair and "
             "the pair/reference impls forward both fills); the stream is created from the source's accessors; in par "
